@@ -6,8 +6,8 @@ from vlib import Check
 PID = "C02"
 
 
-def validate(ck, wd, name, trace):
-    ok, info = vlib.validate_trace(wd, "TotalTrace", trace, timeout=3400, xmx="6g")
+def validate(ck, wd, name, trace, module="TotalTrace"):
+    ok, info = vlib.validate_trace(wd, module, trace, timeout=3400, xmx="6g")
     ck.cov["parts"]["validate:" + name] = info
     ck.cov["states"] += info.get("distinct_states", 0)
     ck.cov["transitions"] += info.get("states_generated", 0)
@@ -16,7 +16,7 @@ def validate(ck, wd, name, trace):
     else:
         keep = os.path.join(vlib.REPLAYS, "C02-trace-%s-seed%d.ndjson" % (name.replace(":", "_"), vlib.seed()))
         shutil.copy(trace, keep)
-        ck.violation("TotalTrace rejected an observation (not a value / absence / named error): %s" % info.get("rejected", "")[:1500],
+        ck.violation("%s rejected an observation (%s): %s" % (module, "not a value / absence / named error" if module == "TotalTrace" else "the evaluator's verdict or command stream is not the specification's", info.get("rejected", "")[:1500]),
                      {"kind": "total-trace", "trace": keep})
 
 
@@ -37,11 +37,17 @@ def run(tier):
                       "advertised size suffices (and rejects a badly ordered layout); its (misalignment, length) family is replayed on "
                       "hinted and unhinted draws with caller memory. Chains of 10 .. 200000 nested PaintGlyph tables / composite glyphs "
                       "are painted / loaded in child processes (a crash of the child is a violation). TotalTrace.tla accepts only "
-                      "value / absence / named-error observations.")
+                      "value / absence / named-error observations. Charstring.tla is the Type 2 / CFF2 charstring evaluator as a step machine "
+                      "(operand stack of 513 with stale reads, subroutine frames with the nesting limit of 10, width / stem / mask "
+                      "bookkeeping, every path operator); TLC checks stack and nesting bounds and halting on ~3300 programs (every "
+                      "operator after 0..14 operands, operator pairs, number encodings cut short, hint masks, call chains around the "
+                      "limit, recursion, 512..514 operands), each is evaluated by read-fonts in a child process (a missing guard, a "
+                      "panic or a dead child is a violation) and CharstringTrace requires the same verdict and command stream, also for "
+                      "the charstrings of the corpus CFF fonts with their real subroutines.")
     ck.assumptions = ["outcome-class agreement with the models is reported (outcome_differs_from_model) but a difference alone is "
                       "not a violation of totality", "IFT client totality is exercised by C18/C19 (malformed patches, failing "
-                      "decoder) and not repeated here", "CFF charstring nesting and paint-graph guards are exercised through the "
-                      "corpus drive and C13, without a model of their own here", "deadline 20 s per driven font, 5 s per model case"]
+                      "decoder) and not repeated here", "paint-graph guards are exercised through the corpus drive and C13; the charstring model is exact only while "
+                      "coordinates stay within +-16000 units (no 32-bit wrap-around); blend / vsindex are evaluated without blend state", "deadline 20 s per driven font, 5 s per model case"]
     wd = vlib.workdir(PID)
     vlib.stage_specs(wd, "vm", "common")
     cfg = "HintVMMC_quick.cfg" if tier == "quick" else "HintVMMC_thorough.cfg"
@@ -92,6 +98,22 @@ def run(tier):
     res = vlib.run_harness("fv-total", ["c02", "deep", "--out", t5], timeout=3000)
     ck.add_harness("deep-chains", res, traces=False)
     validate(ck, wd, "deep", t5)
+    # the CFF / CFF2 charstring evaluator: Charstring.tla as a state machine over a program family (bounds, halting), every
+    # program replayed on the real evaluator in a child process, and the charstrings of the corpus CFF fonts validated
+    vlib.stage_specs(wd, "cff")
+    r = vlib.run_tlc(wd, "CharstringMC", cfg="CharstringMC_%s.cfg" % tier, workers=8, timeout=1800, xmx="8g", out_name="charstring.out")
+    ck.add_tlc("tlc:Charstring", r)
+    if not r.ok:
+        ck.spec_error("CharstringMC", r)
+    t6 = os.path.join(wd, "charstring.ndjson")
+    res = vlib.run_harness("fv-total", ["cs", "replay", "--cases", r.out, "--out", t6], timeout=3000)
+    ck.add_harness("replay:charstring", res, traces=False)
+    os.remove(r.out)
+    validate(ck, wd, "charstring", t6, module="CharstringTrace")
+    t7 = os.path.join(wd, "charstring_corpus.ndjson")
+    res = vlib.run_harness("fv-total", ["cs", "corpus", "--per-font", 40 if tier == "quick" else 400, "--out", t7], timeout=3000)
+    ck.add_harness("record:charstring-corpus", res, traces=False)
+    validate(ck, wd, "charstring-corpus", t7, module="CharstringTrace")
     for i in range(1 if tier == "quick" else 8):
         t3 = os.path.join(wd, "drive_%d.ndjson" % i)
         res = vlib.run_harness("fv-total", ["c02", "corpus", "--seed", vlib.seed() + i, "--mutations", 12 if tier == "quick" else 60, "--field-stride", 36 if tier == "quick" else 4, "--out", t3], timeout=3400)
